@@ -17,6 +17,12 @@ package migration
 //     state, the pod handed in, the pod in the store, the stored job phase, and judged at once.
 //   - c17Preempt: optional scripted preemption (absent in most cases, as in the shipped interpreter).
 //
+// Second kit unit "real-interpreter" (TestVerifC17RealInterpreter): the same worlds, histories, fault
+// enumeration and oracle, but with the SHIPPED interpreter (reservation.NewInterpreter) over the fault-injecting
+// client; Reservation objects live in the API store, the environment writes their status there, the oracle
+// reads them back from the store (c17Classify). Jobs use a controller-created reservation or a user-supplied
+// one referenced by name only / by name+uid.
+//
 // Level fault_enumeration: every case generates one fault-free history (adaptively, from the case
 // PRNG), records its script and the number n of API writes it made (client Create/Update/Patch/Delete/
 // Status().Update, the interpreter's CreateReservation/DeleteReservation, Evict, Preempt - all of them
